@@ -45,6 +45,7 @@ type NetSpec struct {
 	Verify  bool       `json:"verify,omitempty"`
 	StallS  int        `json:"stallS,omitempty"`
 	C17     *C17Spec   `json:"c17,omitempty"`
+	Resign  *DiskFault `json:"resign,omitempty"`  // C20b: the provenance text was damaged on the publisher's disk BEFORE it was signed with the trusted key
 	Transit *Route     `json:"transit,omitempty"` // C20b: damage applied to one artefact in transit
 	Target  string     `json:"target,omitempty"`  // which artefact Transit hits: index chart prov
 }
@@ -452,6 +453,16 @@ func genC19(seed, index uint64, tier string) *Plan {
 			priv.Variant = "abs-on-credential-less-repository-that-lists-it-too"
 			priv.Redirect = ""
 			pub.AlsoChart, pub.AlsoURL = priv.Chart, priv.ChartURL
+			if g.Chance(0.5) {
+				// … or lists it with a relative reference that resolves to the same URL (then the public repository is
+				// not the owner by Helm's comparison of raw index entries, and the private one is)
+				rel := "shared/" + priv.Chart + "-1.0.0.tgz"
+				if abs, err := repo.ResolveReferenceURL(pub.URL, rel); err == nil {
+					priv.ChartURL = abs
+					pub.AlsoURL = rel
+					priv.Variant = "abs-on-credential-less-repository-that-lists-it-relatively"
+				}
+			}
 		}
 	}
 	spec.Verify = g.Chance(0.4)
